@@ -602,6 +602,11 @@ func c17RunInChild(t *testing.T, ops []string, geodir string, stats *VStats, tag
 		var stderr bytes.Buffer
 		cmd.Stdout, cmd.Stderr = &stderr, &stderr
 		runErr := cmd.Run()
+		if _, isExit := runErr.(*exec.ExitError); runErr != nil && !isExit {
+			// the child could not even be started (binary missing, fork failure): an environment
+			// problem of the harness, never a panic of the code under test
+			t.Fatalf("cannot run the child harness process %s: %v", os.Args[0], runErr)
+		}
 		stats.Inc("child.processes." + tag)
 		b, _ := os.ReadFile(outF)
 		lines := strings.Split(strings.TrimSuffix(string(b), "\n"), "\n")
@@ -626,6 +631,9 @@ func c17RunInChild(t *testing.T, ops []string, geodir string, stats *VStats, tag
 				msg = l
 				break
 			}
+		}
+		if !strings.HasPrefix(msg, "panic:") && !strings.HasPrefix(msg, "fatal error:") {
+			t.Fatalf("the child harness process died without a Go panic trace (%s) while evaluating op %d: environment problem, not a verdict\n%s", msg, start, stderr.String())
 		}
 		res = append(res, "crash:goroutine:"+msg)
 		stats.Inc("child.DIED." + tag)
